@@ -204,7 +204,7 @@ fn roundtrip_case(src: &mut Src, ctx: &mut Ctx) -> Result<(), String> {
 /// A library of some dozens of cells: a tower of levels, each instantiating the level below and a leaf or two,
 /// listed bottom-up with the leaves in between (creation order), top-down, or shuffled.
 fn large_case(src: &mut Src, ctx: &mut Ctx) -> Result<(), String> {
-    let n = src.usize_in(24, 90);
+    let n = src.usize_in(24, 150);
     let mut cells: Vec<MCell> = vec![];
     let mut last_level: Option<usize> = None;
     let mut leaves: Vec<usize> = vec![];
@@ -235,7 +235,7 @@ fn large_case(src: &mut Src, ctx: &mut Ctx) -> Result<(), String> {
         1 => listing.reverse(),
         _ => src.shuffle(&mut listing),
     }
-    ctx.label(&format!("library of {} cells listed {}", if n < 48 { "24-47" } else { "48-90" }, ["bottom-up", "top-down", "shuffled"][how as usize]));
+    ctx.label(&format!("library of {} cells listed {}", if n < 48 { "24-47" } else if n < 100 { "48-99" } else { "100-150" }, ["bottom-up", "top-down", "shuffled"][how as usize]));
     let m = MLib { name: "big".into(), cells, listing };
     ctx.nontrivial(hash_of(&m));
     check_roundtrip(&m, ctx)
@@ -244,6 +244,12 @@ fn check_roundtrip(m: &MLib, ctx: &mut Ctx) -> Result<(), String> {
     let m = m.clone();
     let lib = build(&m);
     let plib = ProtoExporter::export(&lib).map_err(|e| format!("export failed: {:?}", e))?;
+    // exporting is a function of the library: a second call on the same value gives the same message
+    match ProtoExporter::export(&lib) {
+        Ok(again) if again == plib => {}
+        Ok(_) => return Err("export called twice on one library gave two different messages".into()),
+        Err(e) => return Err(format!("export succeeded, then failed when called again on the same library: {:?}", e)),
+    }
     // cells after the cells they instantiate
     let pos = |n: &str| plib.cells.iter().position(|c| c.name == n);
     for c in &m.cells {
